@@ -20,8 +20,26 @@ sys.path.insert(0, HERE)
 from mutants import MUTANTS  # noqa: E402
 
 
-def sh(cmd, **kw):
-    return subprocess.run(cmd, stdout=subprocess.PIPE, stderr=subprocess.STDOUT, text=True, **kw)
+def sh(cmd, timeout=None, **kw):
+    """Run a command in its own process group; on timeout the whole group is killed."""
+    import signal
+
+    class R:
+        pass
+    p = subprocess.Popen(cmd, stdout=subprocess.PIPE, stderr=subprocess.STDOUT, text=True,
+                         start_new_session=True, **kw)
+    r = R()
+    try:
+        out, _ = p.communicate(timeout=timeout)
+        r.returncode, r.stdout = p.returncode, out
+    except subprocess.TimeoutExpired:
+        try:
+            os.killpg(p.pid, signal.SIGKILL)
+        except ProcessLookupError:
+            pass
+        out, _ = p.communicate()
+        r.returncode, r.stdout = 124, "TIMEOUT after %ss\n%s" % (timeout, out or "")
+    return r
 
 
 def apply_edits(root, edits):
@@ -53,7 +71,7 @@ def run_one(mid, tier, keep, baseline):
             apply_edits(d, m.get("edits", []))
         if baseline:
             env = dict(os.environ, CARGO_NET_OFFLINE="true", CARGO_TARGET_DIR=d + "/target")
-            r = sh(["cargo", "test", "--workspace", "--no-fail-fast", "--offline"], cwd=d, env=env)
+            r = sh(["cargo", "test", "--workspace", "--no-fail-fast", "--offline"], cwd=d, env=env, timeout=240)
             ok = r.returncode == 0 and "55 passed; 0 failed" in r.stdout
             res["baseline"] = "pass" if ok else "FAIL"
             if not ok:
@@ -62,7 +80,7 @@ def run_one(mid, tier, keep, baseline):
                 return res
         t0 = time.time()
         env = dict(os.environ, VERIF_REPO=d)
-        r = sh([os.path.join(VERIF, "check"), m["prop"], "--tier", tier], env=env, cwd=VERIF)
+        r = sh([os.path.join(VERIF, "check"), m["prop"], "--tier", tier], env=env, cwd=VERIF, timeout=3000)
         res["check_s"] = round(time.time() - t0, 1)
         res["exit"] = r.returncode
         viol = [l for l in r.stdout.splitlines() if l.startswith("VIOLATION ")]
